@@ -175,6 +175,11 @@ func (m *fsmMonitor) check(preBz []byte, inst *sm.FSMInstance, ev string, args [
 			if old := pre.Payload.DKGProposalPayload.PubPolyBz; len(old) > 0 && !bytes.Equal(old, poly) && !isCancelledDkg(post.State) {
 				m.report("C02", "retained_poly", "announcement with a different public polynomial was accepted", idx, ev, args)
 			}
+			// … and the polynomial of an accepted announcement IS the one the round retains from then on (every announcement is
+			// compared with the ones before it only through this field)
+			if post.Payload != nil && post.Payload.DKGProposalPayload != nil && !isCancelledDkg(post.State) && !bytes.Equal(post.Payload.DKGProposalPayload.PubPolyBz, poly) {
+				m.report("C02", "retained_poly", fmt.Sprintf("the round retains a polynomial of %d bytes after accepting an announcement with one of %d bytes", len(post.Payload.DKGProposalPayload.PubPolyBz), len(poly)), idx, ev, args)
+			}
 		}
 	}
 	// invitation phase
@@ -231,6 +236,11 @@ func (m *fsmMonitor) check(preBz []byte, inst *sm.FSMInstance, ev string, args [
 				}
 			}
 		case "event_signing_partial_sign_error_received":
+			if len(args) > 1 && args[0] == "signErr" {
+				if part, in := sp.Quorum[atoi(args[1])]; !in || part.Status != 0 {
+					m.report("C06", "no_double_count", "error report accepted from a participant that is not awaited (it has delivered or failed already): a delivered contribution is taken back", idx, ev, args)
+				}
+			}
 			wantCancel := failed+1 > n-t
 			isCancel := post.State == "state_signing_partial_signs_await_cancelled_by_error"
 			if wantCancel != isCancel && !strings.Contains(post.State, "timeout") {
